@@ -44,14 +44,26 @@ def r1_subtler_chain(ctx):
     chain = flatten_chain(f.node.body)
     ctx.require(chain, f"{f.key}: no if-chain")
 
+    def disjuncts(t):
+        if isinstance(t, ast.BoolOp) and isinstance(t.op, ast.Or):
+            out = []
+            for v in t.values:
+                out += disjuncts(v)
+            return out
+        return [t]
+
     def idx(pred):
         for i, (t, body, _) in enumerate(chain):
-            if t is not None and pred(t):
+            if t is not None and any(pred(d) for d in disjuncts(t)):
                 return i
         return None
 
     def isinst_of(t, names):
-        return isinstance(t, ast.Call) and call_name(t) == "isinstance" and len(t.args) == 2 and dotted(t.args[0]) == p and dotted(t.args[1]) in names
+        if not (isinstance(t, ast.Call) and call_name(t) == "isinstance" and len(t.args) == 2 and dotted(t.args[0]) == p):
+            return False
+        cls = t.args[1]
+        alts = cls.elts if isinstance(cls, ast.Tuple) else [cls]
+        return any(dotted(a) in names for a in alts)
 
     i_generic = idx(lambda t: isinst_of(t, {"GenericAlias", "types.GenericAlias"}))
     i_union = idx(lambda t: isinst_of(t, {"UnionTypes"}))
@@ -129,6 +141,9 @@ def key_function_sites(ctx, only=None):
         # positive inventory: the generators' key fragments
         gen = A.entry_generator(repo)
         ctx.touch(gen)
+        from .c03 import entrygen
+
+        lookup_list = entrygen(ctx).lookup
         for e in emissions(gen.node):
             try:
                 sk = from_fstring(e.arg)
@@ -138,7 +153,7 @@ def key_function_sites(ctx, only=None):
                 pass
             txt = sk.text
             looks = [h for h in sk.holes.values() if "lookup_for" in h or sel.name in h]
-            is_key_fragment = e.sink == "lookup" or "TARGS.append" in txt
+            is_key_fragment = e.sink == lookup_list or "TARGS.append" in txt
             if not is_key_fragment or not sk.holes:
                 continue
             # constant fragments such as "*TARGS" carry no key function
@@ -262,7 +277,30 @@ def r3_normaliser_type_branches(ctx):
     ctx.ob(f"{call.key}:type[...]-kept", call.loc(knode or call.node), "an annotation whose origin is `type` is kept unchanged", kept, "type[...] annotations are no longer passed through unchanged")
 
 
+def r4_positions(ctx):
+    from .c03 import r2_one_name_three_roles
+
+    r2_one_name_three_roles(ctx)
+
+
+def r5_generic_arguments(ctx):
+    from .c12 import zip_guards
+    from .c13 import r2_covariance
+
+    r2_covariance(ctx)
+    zip_guards(ctx)
+
+
+def r6_entry_point_republished(ctx):
+    from .c05 import r3_rebuild_from_nothing
+
+    r3_rebuild_from_nothing(ctx)
+
+
 RULES = [
+    ("C14.R4", "P1", r4_positions, "the key function is chosen for the parameter's real position"),
+    ("C14.R5", "P1", r5_generic_arguments, "parametrised generics are compared argument-wise under a length test"),
+    ("C14.R6", "P1", r6_entry_point_republished, "a rebuild re-publishes the entry point's helpers (the type-valued key function among them)"),
     ("C14.R1", "P1", r1_subtler_chain, "the type-valued key function's branches"),
     ("C14.R2", "P1", r2, "one key function everywhere"),
     ("C14.R3", "P1", r3_normaliser_type_branches, "normaliser branches for type / Any"),
